@@ -308,6 +308,45 @@ func runC12(o *cli.Opts, run *evid.Run) {
 		run.Case("sequence/"+sd.mode, true, key, ok, map[string]any{"mode": sd.mode, "depth": sd.d, "batch": sd.b, "position": i, "digest": d})
 	}
 	run.Stage("sequence")
+	// construction paths at larger dimensions, compile only: BuildR1CS* against Import*Setup (the import path only
+	// loads the key files, so key files of another circuit serve) and a fresh process
+	if guardPK != "" {
+		big := []seqDim{{"insertion", 16, 16}, {"deletion", 16, 16}}
+		if o.Thorough() {
+			big = append(big, seqDim{"insertion", 30, 10}, seqDim{"deletion", 8, 40}, seqDim{"insertion", 32, 8}, seqDim{"deletion", 31, 9})
+		}
+		cli.ForEach(len(big), 2, func(i int) {
+			sd := big[i]
+			key := fmt.Sprintf("C12/paths/%s/d=%d/b=%d", sd.mode, sd.d, sd.b)
+			if !run.Wants(key) {
+				return
+			}
+			c, err := build(sd.mode, sd.d, sd.b)
+			if err != nil {
+				run.Violate(key, "build failed: "+err.Error(), nil)
+				return
+			}
+			d := csDigest(c)
+			ok := true
+			ips, err := importSetup(sd.mode, sd.d, sd.b, guardPK, guardVK)
+			if err != nil {
+				ok = false
+				run.Violate(key+"/import", "Import*Setup failed: "+err.Error(), nil)
+			} else if di := csDigest(ips.ConstraintSystem); di != d {
+				ok = false
+				run.Violate(key+"/import", fmt.Sprintf("the key-import path builds a different constraint system than BuildR1CS* for %s (%d,%d): %d vs %d constraints", sd.mode, sd.d, sd.b, ips.ConstraintSystem.GetNbConstraints(), c.GetNbConstraints()), nil)
+			}
+			out := filepath.Join(o.Scratch, fmt.Sprintf("c12-big-%d.r1cs", i))
+			res := proc.Run(bin, nil, 20*time.Minute, []string{"GOMAXPROCS=6"}, "r1cs", "--mode", sd.mode, "--tree-depth", fmt.Sprint(sd.d), "--batch-size", fmt.Sprint(sd.b), "--output", out)
+			if fd, err := fileDigest(out); res.Exit == 0 && err == nil && fd != d {
+				ok = false
+				run.Violate(key+"/process", "a fresh `gnark-mbu r1cs` process builds a different constraint system than the in-process BuildR1CS*", nil)
+			}
+			os.Remove(out)
+			run.Case("paths-large/"+sd.mode, true, key, ok, map[string]any{"mode": sd.mode, "depth": sd.d, "batch": sd.b, "constraints": c.GetNbConstraints(), "digest": d})
+		})
+	}
+	run.Stage("paths-large")
 	// depth guard on every construction path
 	guard := func(sub string, err error, sys any) {
 		key := "C12/guard/" + sub
